@@ -3,12 +3,12 @@ package main
 // A Path is one execution of a harness entry under a decision prefix.
 
 import (
-	"sync"
 	"fmt"
-	"os"
 	"go/types"
+	"os"
 	"sort"
 	"strings"
+	"sync"
 
 	"golang.org/x/tools/go/ssa"
 )
@@ -49,10 +49,10 @@ func dumpSiteStats() {
 }
 
 // control-flow panics of the engine
-type targetPanic struct{ v Value }       // Go-level panic in the interpreted program
-type pathEnd struct{ reason string }     // path ends silently (assume false, harness done)
-type unsupported struct{ msg string }    // inconclusive
-type engineError struct{ msg string }    // bug in the engine
+type targetPanic struct{ v Value }        // Go-level panic in the interpreted program
+type pathEnd struct{ reason string }      // path ends silently (assume false, harness done)
+type unsupported struct{ msg string }     // inconclusive
+type engineError struct{ msg string }     // bug in the engine
 type unwindFailure struct{ where string } // loop bound exceeded
 
 type Decision struct {
@@ -97,24 +97,25 @@ type PathResult struct {
 }
 
 type Path struct {
-	eng    *Engine
-	ctx    *TermCtx
-	sol    *Solver
-	prefix []Decision
-	di     int
-	decs   []Decision
-	res    *PathResult
-	model  Model // satisfies the current path condition, or nil if unknown
-	known  map[int]bool
-	bounds map[int][2]uint64 // unsigned bounds of terms implied by the path condition
-	site   *frame
-	decVal uint64
-	lastNow *Term
-	tickers []*Chan
+	eng           *Engine
+	ctx           *TermCtx
+	sol           *Solver
+	prefix        []Decision
+	di            int
+	decs          []Decision
+	res           *PathResult
+	model         Model // satisfies the current path condition, or nil if unknown
+	known         map[int]bool
+	bounds        map[int][2]uint64 // unsigned bounds of terms implied by the path condition
+	site          *frame
+	decVal        uint64
+	lastNow       *Term
+	tickers       []*Chan
 	deadlockLabel string
 	shortReads    bool
-	curFr  *frame
-	pc     []*Term
+	sstCuts       bool // sstable.Writer.EstimatedSize returns arbitrary non-decreasing values
+	curFr         *frame
+	pc            []*Term
 
 	globals map[*ssa.Global]*Value
 	symCnt  map[string]int
